@@ -13,6 +13,7 @@ from checks import wcommon, C01, C02
 
 FUNCS = C01.FUNCS + ['_top_level_dir_properties._read', '_top_level_dir_properties._get_bounds', 'list_drf._yield_matching_files']
 READER = {'_two_files': 'a reader pass opens only files that are readable at that moment, skips vanished ones, returns exactly their blocks',
+          '_cache_sequence': 'a long-lived reader: a pass over file names that do not exist (any more / yet) between two reads of a file leaves the second read equal to the first (no stale cached handle)',
           '_bounds_scan': 'bounds skip files that vanished or cannot be read yet, never raise',
           '_read_lengths': 'per-file block extraction depends only on that file (index + length)'}
 LISTING = {'_listing_fwd_rf_gone1': 'listing tolerates a subdirectory vanishing between the scan and the listing',
@@ -35,7 +36,9 @@ def main(tier):
     tot = wcommon.report(rep, specs, results, lambda nm: nm.startswith(keep))
     rep.ob('(i) publication protocol on every prefix of %d write-path configurations' % len(specs), 'witness', None, tot['q'], tot['s'], tot['paths'])
     T = 150 if tier == 'quick' else 900
-    chx.report(rep, chx.run_module('reader', names=list(READER), per_condition_timeout=T), {k: '(ii) ' + v for k, v in READER.items()})
+    from checks import readerside
+    chx.report(rep, chx.run_module('reader', names=list(READER), per_condition_timeout=T), {k: '(ii) ' + v for k, v in READER.items()},
+               replays=readerside.READ_REPLAYS, sigs={k: 'C09.reader.' + k.strip('_') for k in READER})
     from checks import C14
     lrep = {}
     for nm_ in LISTING:
